@@ -60,6 +60,11 @@ def make (spec0):
             nt   = float (rng.uniform (0.3, 4))
             ln   = abs (turn) * nt * float (rng.choice ([1, -1]))
             n    = int (max (3, np.ceil (3 * nt)) + rng.integers (0, 30))
+            if rng.random () < 0.2:
+                # short pieces of a helix: one or two segments (up to a third / two thirds of a turn)
+                n  = int (rng.integers (1, 3))
+                nt = float (rng.uniform (0.1, 0.32 * n))
+                ln = abs (turn) * nt * float (rng.choice ([1, -1]))
             h = dict ( k = 'h', n = n, length = ln, turn = turn, r = 1e-3
                      , rx1 = float (10 ** rng.uniform (-1, 1)), ry1 = float (10 ** rng.uniform (-1, 1)), tag = tag)
             if rng.random () < 0.5:
